@@ -54,6 +54,8 @@ Lemma core_put_u e c : core (put_u e c) = core e.
 Proof. reflexivity. Qed.
 Lemma core_note_cancel e r : core (note_cancel e r) = core e.
 Proof. unfold note_cancel. destruct (r_name r) as [[]|]; try reflexivity; destruct (trk e); reflexivity. Qed.
+Lemma core_note_cancel_m e m r : core (note_cancel_m e m r) = core e.
+Proof. destruct m; [reflexivity|apply core_note_cancel]. Qed.
 Lemma core_set_out e i v : core (set_out e i v) = core e.
 Proof. reflexivity. Qed.
 Lemma core_schedule e r : core (schedule e r) = core e.
@@ -173,11 +175,11 @@ Proof.
       destruct I1 as [I1 [S1 [N1 [R1 Q1]]]].
       assert (Hdrop1 : n <> Restart \/ sys e1 <> Restarting).
       { destruct Hdrop as [K|K]; [now left|right; now apply N1]. }
-      destruct (mark_cancelled_raises e1 r) eqn:Em.
+      destruct (mark_cancelled_raises (tk e1 m) r) eqn:Em.
       * cbn [fst]. split; [split|]; auto. apply Inv_put_i; [exact I1|]. cbn. intros K. rewrite Hn in K.
         exfalso. unfold mark_cancelled_raises in Em. rewrite Er, K in Em. discriminate.
-      * pose proof (core_mark_done (fin_i (note_cancel e1 r) n) m r) as K.
-        assert (Kn : core (note_cancel e1 r) = core e1) by apply core_note_cancel.
+      * pose proof (core_mark_done (fin_i (note_cancel_m e1 m r) n) m r) as K.
+        assert (Kn : core (note_cancel_m e1 m r) = core e1) by apply core_note_cancel_m.
         split; [split|].
         -- apply (Inv_core _ _ K). apply Inv_drop_i; [now apply (Inv_core e1)|].
            rewrite (core_sys _ _ Kn). exact Hdrop1.
@@ -190,12 +192,12 @@ Proof.
       * apply (Inv_core _ _ K). apply (Inv_core e); [reflexivity|exact I].
       * rewrite (core_started _ _ K). exact S.
       * rewrite (core_sys _ _ K). auto.
-    + destruct (mark_cancelled_raises e r).
+    + destruct (mark_cancelled_raises (tk e m) r).
       * cbn [fst]. split; [split|]; auto. apply (Inv_core e); [reflexivity|exact I].
-      * pose proof (core_mark_done (fin_u (note_cancel e r) c) m r) as K.
-        assert (Kn : core (note_cancel e r) = core e) by apply core_note_cancel.
+      * pose proof (core_mark_done (fin_u (note_cancel_m e m r) c) m r) as K.
+        assert (Kn : core (note_cancel_m e m r) = core e) by apply core_note_cancel_m.
         split; [split|].
-        -- apply (Inv_core _ _ K). apply (Inv_core (note_cancel e r)); [reflexivity|]. now apply (Inv_core e).
+        -- apply (Inv_core _ _ K). apply (Inv_core (note_cancel_m e m r)); [reflexivity|]. now apply (Inv_core e).
         -- rewrite (core_started _ _ K). cbn. rewrite (core_started _ _ Kn). exact S.
         -- rewrite (core_sys _ _ K). cbn. rewrite (core_sys _ _ Kn). auto.
 Qed.
